@@ -22,6 +22,9 @@ pub struct Case {
     /// (refill call index, kind, repeat): kinds 0 Interrupted, 1 Other, 2 UnexpectedEof, 3 WouldBlock,
     /// 4 InvalidData, 5 TimedOut
     pub faults: Vec<(usize, u8, u8)>,
+    /// bit k set: after the k-th start event (mod 8) skip the element with read_to_end_into*
+    #[serde(default)]
+    pub skip: u8,
 }
 
 pub fn info() -> PropInfo {
@@ -29,7 +32,7 @@ pub fn info() -> PropInfo {
         id: "C18",
         run,
         replay,
-        rule: "cases = (document, configuration, chunking, sync/async source, fault plan). For every document and chunking the fault-free run is recorded and EVERY refill (fill_buf) call index of that run is used as a fault point, for 'interrupted' repeated 1-3 times and for four other error kinds; plus random multi-interrupt plans. Interrupts: the record sequence (events, errors, positions) must equal the fault-free one. Other kinds: the records before the first I/O error equal the same-length prefix of the fault-free run and that error is Error::Io carrying the injected kind and marker text. Non-trivial = the (first) fault lands strictly inside a markup construct, i.e. after its '<' was consumed and before its end.",
+        rule: "cases = (document, configuration, chunking, sync/async source, fault plan). For every document and chunking the fault-free run (read_event_into*, with read_to_end_into* skips after some start events in a third of the groups) is recorded and EVERY refill (fill_buf) call index of that run is used as a fault point, for 'interrupted' repeated 1-3 times and for four other error kinds; plus random multi-interrupt plans. Interrupts: the record sequence (events, errors, positions) must equal the fault-free one. Other kinds: the records before the first I/O error equal the same-length prefix of the fault-free run and that error is Error::Io carrying the injected kind and marker text. Non-trivial = the (first) fault lands strictly inside a markup construct, i.e. after its '<' was consumed and before its end.",
         assumptions: &["what the reader does after it returned an I/O error is not asserted (the property does not say)", "the fault point is a refill call that the fault-free run makes, so the fault is always reached"],
         level: "fault_enumeration",
         variants: &["full"],
@@ -53,6 +56,7 @@ fn run_plan(c: &Case, plan: FaultPlan, stop_at_io: bool) -> (Vec<Rec>, usize, Ve
     let mut out = vec![];
     let mut extra = 0;
     let mut offsets = vec![];
+    let mut starts = 0u32;
     if !c.asynch {
         let mut r = Reader::from_reader(ChunkedBufRead::with_plan(data, c.cuts.clone(), plan));
         apply_cfg(r.config_mut(), c.cfg);
@@ -61,15 +65,39 @@ fn run_plan(c: &Case, plan: FaultPlan, stop_at_io: bool) -> (Vec<Rec>, usize, Ve
             buf.clear();
             let calls_before = r.get_mut().calls;
             let pos_before = r.get_mut().pos;
-            let ev = ev_of(&r.read_event_into(&mut buf));
+            let (ev, start_name) = {
+                let e = r.read_event_into(&mut buf);
+                let n = if let Ok(quick_xml::events::Event::Start(s)) = &e { Some(s.name().as_ref().to_vec()) } else { None };
+                (ev_of(&e), n)
+            };
             let calls_after = r.get_mut().calls;
             // approximate: all refills of this call are attributed the offset before the call
             for _ in calls_before..calls_after {
                 offsets.push(pos_before);
             }
             let io = matches!(ev, Ev::Io(_));
-            let done = matches!(ev, Ev::Eof) || ev.is_fatal();
+            let mut done = matches!(ev, Ev::Eof) || ev.is_fatal();
             out.push(Rec { ev, pos: r.buffer_position(), err_pos: r.error_position() });
+            let mut io = io;
+            if let Some(name) = start_name {
+                starts += 1;
+                if (c.skip >> (starts % 8)) & 1 == 1 && !done {
+                    let calls_b = r.get_mut().calls;
+                    let pos_b = r.get_mut().pos;
+                    let mut b2 = Vec::new();
+                    let res = r.read_to_end_into(quick_xml::name::QName(&name), &mut b2);
+                    for _ in calls_b..r.get_mut().calls {
+                        offsets.push(pos_b);
+                    }
+                    let ev2 = match res {
+                        Ok(span) => Ev::Comment(B(format!("skipped {}..{}", span.start, span.end).into_bytes())),
+                        Err(e) => ev_of(&Err::<quick_xml::events::Event, _>(e)),
+                    };
+                    io = matches!(ev2, Ev::Io(_));
+                    done = ev2.is_fatal() || matches!(ev2, Ev::MissingEndTag(_));
+                    out.push(Rec { ev: ev2, pos: r.buffer_position(), err_pos: r.error_position() });
+                }
+            }
             if io && stop_at_io {
                 break;
             }
@@ -90,14 +118,38 @@ fn run_plan(c: &Case, plan: FaultPlan, stop_at_io: bool) -> (Vec<Rec>, usize, Ve
             buf.clear();
             let calls_before = r.get_mut().calls;
             let pos_before = r.get_mut().pos;
-            let ev = ev_of(&block_on(r.read_event_into_async(&mut buf)));
+            let (ev, start_name) = {
+                let e = block_on(r.read_event_into_async(&mut buf));
+                let n = if let Ok(quick_xml::events::Event::Start(s)) = &e { Some(s.name().as_ref().to_vec()) } else { None };
+                (ev_of(&e), n)
+            };
             let calls_after = r.get_mut().calls;
             for _ in calls_before..calls_after {
                 offsets.push(pos_before);
             }
             let io = matches!(ev, Ev::Io(_));
-            let done = matches!(ev, Ev::Eof) || ev.is_fatal();
+            let mut done = matches!(ev, Ev::Eof) || ev.is_fatal();
             out.push(Rec { ev, pos: r.buffer_position(), err_pos: r.error_position() });
+            let mut io = io;
+            if let Some(name) = start_name {
+                starts += 1;
+                if (c.skip >> (starts % 8)) & 1 == 1 && !done {
+                    let calls_b = r.get_mut().calls;
+                    let pos_b = r.get_mut().pos;
+                    let mut b2 = Vec::new();
+                    let res = block_on(r.read_to_end_into_async(quick_xml::name::QName(&name), &mut b2));
+                    for _ in calls_b..r.get_mut().calls {
+                        offsets.push(pos_b);
+                    }
+                    let ev2 = match res {
+                        Ok(span) => Ev::Comment(B(format!("skipped {}..{}", span.start, span.end).into_bytes())),
+                        Err(e) => ev_of(&Err::<quick_xml::events::Event, _>(e)),
+                    };
+                    io = matches!(ev2, Ev::Io(_));
+                    done = ev2.is_fatal() || matches!(ev2, Ev::MissingEndTag(_));
+                    out.push(Rec { ev: ev2, pos: r.buffer_position(), err_pos: r.error_position() });
+                }
+            }
             if io && stop_at_io {
                 break;
             }
@@ -118,7 +170,7 @@ thread_local! {
 }
 
 fn base_of(c: &Case) -> (Vec<Rec>, usize, Vec<usize>) {
-    let key = crate::engine::hash_of(&(&c.input.0, c.cfg, &c.cuts, c.asynch, &c.pend));
+    let key = crate::engine::hash_of(&(&c.input.0, c.cfg, &c.cuts, c.asynch, &c.pend, c.skip));
     BASE.with(|b| {
         let mut b = b.borrow_mut();
         if let Some((k, r, n, o)) = &*b {
@@ -206,7 +258,8 @@ pub fn check(c: &Case) -> Verdict {
 
 /// all single-fault cases for one (document, configuration, chunking, source)
 fn group(input: &[u8], cfg: u8, cuts: Vec<usize>, asynch: bool, pend: Vec<u8>, r: &mut SplitMix64, extra_multi: usize) -> Vec<Case> {
-    let proto = Case { input: B(input.to_vec()), cfg, cuts, asynch, pend, faults: vec![] };
+    let skip = if r.chance(1, 3) { r.next() as u8 } else { 0 };
+    let proto = Case { input: B(input.to_vec()), cfg, cuts, asynch, pend, faults: vec![], skip };
     let (_, ncalls, _) = run_plan(&proto, FaultPlan::none(), false);
     let mut out = vec![];
     for at in 0..ncalls {
